@@ -11,7 +11,7 @@ func init() {
 	propFuncs["C18"] = propC18
 	propInfos["C18"] = &PropInfo{
 		Level:   "other",
-		Explain: "Structural necessary conditions decided statically (DESIGN.md §5 C18): NodeMarks word/bit agreement — Test, Mark, Unmark address word i/32 with mask 1<<(i%32) (|=, &^=, &), Next scans from word i/32 shifted by i%32 and returns i+tz / 32*bi+tz (the inverse of that addressing); capacity — grow(i) replaces marks by a slice of length k with k doubling from 1 WHILE k < i/32+1 (so k >= i/32+1 at exit) after copying the old words, and Mark indexes only after that; C-order on the DFS closures (PreOrder, PostOrder, Euler.Visit) and SCC's connect: the node is marked before any recursive call, recursion only under 'not yet visited' for that successor, PreOrder appends before / PostOrder after the successor loop, Enter dominates and Exit follows the loop each under its own nil test; C-taint in graphout: every string reaching the output is a constant, a DotString or formatAttrs result, a numeric operand, a DotLiteral, or an attribute name; index-map plumbing: NodeMap/EdgeMap formulas, lock-step appends of out/oldEdges in both subgraph constructors, MakeBiGraph's transpose insertion, SimplifyMulti's target→edge-index map discipline (the map is asked about gw.Out(n)[i]; the weight gw.OutWeight(n,i) is added at the index the map gives exactly when the map has the target, otherwise the target and that weight are appended and len(edges) — the index about to be taken — is recorded under the target; the map is emptied at the start of every node, or entries of earlier nodes are recognised by an index below the node's first edge) and index bounds, Out/OutWeight and SCCGraph accessors slicing the same bounds; graph.Equal — false at once when the node counts differ, every node examined, false when a node's two lists differ in length, sorted copies (the two halves of one buffer append(append(buf[:0], e1...), e2...)) compared element by element with a mismatch returning false, the next node reached only over the exhausted exit of a complete comparison, true only once the node loop is exhausted; one-formula accessors (IntGraph.NumNodes/Out, WeightedUnit.OutWeight, bigraph.In, listSubgraph.Underlying); C-quote on DotString: the result is one quote + the loop's output + one quote, the loop visits every byte once in order, and on every path through the loop body, for every one of the 256 byte values that can take it, the bytes emitted are read back by the dot language as exactly that byte (raw for anything but quote and backslash, backslash-n for newline, backslash + the byte for quote, backslash and the record delimiters) — an exhaustive finite decision, so unescape(DotString(s)) = s for every s.",
+		Explain: "Structural necessary conditions decided statically (DESIGN.md §5 C18): NodeMarks word/bit agreement — Test, Mark, Unmark address word i/32 with mask 1<<(i%32) (|=, &^=, &), Next scans from word i/32 shifted by i%32 and returns i+tz / 32*bi+tz (the inverse of that addressing); capacity — grow(i) replaces marks by a slice of length k with k doubling from 1 WHILE k < i/32+1 (so k >= i/32+1 at exit) after copying the old words, and Mark indexes only after that; C-order on the DFS closures (PreOrder, PostOrder, Euler.Visit) and SCC's connect: the node is marked before any recursive call, recursion only under 'not yet visited' for that successor, PreOrder appends before / PostOrder after the successor loop, Enter dominates and Exit follows the loop each under its own nil test; C-taint in graphout: every string reaching the output is a constant, a DotString or formatAttrs result, a numeric operand, a DotLiteral, or an attribute name; index-map plumbing: NodeMap/EdgeMap formulas, lock-step appends of out/oldEdges in both subgraph constructors, MakeBiGraph's transpose insertion, SimplifyMulti's target→edge-index map discipline (the map is asked about gw.Out(n)[i]; the weight gw.OutWeight(n,i) is added at the index the map gives exactly when the map has the target, otherwise the target and that weight are appended and len(edges) — the index about to be taken — is recorded under the target; the map is emptied at the start of every node, or entries of earlier nodes are recognised by an index below the node's first edge) and index bounds, Out/OutWeight and SCCGraph accessors slicing the same bounds; graph.Equal — false at once when the node counts differ, every node examined, false when a node's two lists differ in length, sorted copies (the two halves of one buffer append(append(buf[:0], e1...), e2...)) compared element by element with a mismatch returning false, the next node reached only over the exhausted exit of a complete comparison, true only once the node loop is exhausted; one-formula accessors (IntGraph.NumNodes/Out, WeightedUnit.OutWeight, bigraph.In, listSubgraph.Underlying); C-quote on DotString: the result is one quote + the loop's output + one quote, the loop visits every byte once in order, and on every path through the loop body, for every one of the 256 byte values that can take it, the bytes emitted are read back by the dot language as exactly that byte (raw for anything but quote and backslash, backslash-n for newline, backslash + the byte for quote, backslash and the record delimiters) — an exhaustive finite decision, so unescape(DotString(s)) = s for every s. Added after the mutation sweep (DESIGN §13): SCC's conformance to Tarjan's algorithm clause by clause (numbering, successors, min, root test, pop with the processed mark, component records, out-edge push/collect/dedup, driver, flag completion); exactness of SubgraphRemove/SubgraphKeep (every node/edge gone through, kept exactly when requested, numbering, rejection); SimplifyMulti's indexes and weighted view; OutWeight's slice bounds; Dot.Fprint writes every node and edge line, stops only on a write error, calls optional callbacks only when set.",
 		Assume:  []string{"A2", "node ids are non-negative"},
 		Undec:   []string{"that traversals/SCC/subgraphs equal their graph-theoretic definitions", "reverse topological numbering", "that sort.Ints sorts (trusted library), on which Equal's multiset comparison rests"},
 	}
